@@ -9,6 +9,7 @@ CHECK = dict(
         "concurrent part: goroutine schedules are sampled, not owned; the barrier only aligns the requests at the handler entry",
         "the TLS bind is driven with HTTP/1.1 only (served like mustStartServer: Serve on a TLS listener made from the server's TLS configuration); HTTP/2 is not driven",
         "IPv4 peers are 127.0.0.1-127.0.0.8, the IPv6 peer is ::1 (the only loopback IPv6 address)",
+        "cmd unit: builder.initWeb's two lines (webConfig.toInternal, websvc.New + Refresh) are repeated without starting the servers; requests are handed to the built http.Server.Handler of each linked-IP server (read via vpeek) with a forged RemoteAddr",
     ],
     units=[
         dict(name="websvc", dir="internal/websvc", src="C19/websvc", runs=[
@@ -16,6 +17,9 @@ CHECK = dict(
             dict(name="concurrent", run="^TestVerifC19Concurrent$", quick=3000, thorough=80000, shards_thorough=2),
             dict(name="concurrent-race", run="^TestVerifC19Concurrent$", quick=300, thorough=6000, race=True),
             dict(name="decide", run="^TestVerifC19Decide$", quick=300000, thorough=6000000, shards_thorough=2),
+        ]),
+        dict(name="cmd", dir="internal/cmd", src="C19/cmd", runs=[
+            dict(name="web-config", run="^TestVerifC19CmdWeb$", quick=400, thorough=16000, shards_quick=2, shards_thorough=6),
         ]),
     ],
 )
